@@ -237,6 +237,7 @@ func (c *Ctx) runSketchGen(g *SketchGen, mx *SketchMatrix, per int, purpose stri
 				for i := range j.beh {
 					eb, _ := json.Marshal(j.beh[i].Ev)
 					c.addDistinct(prev + "|" + string(eb))
+					c.addExtraCount("replayed op:"+j.beh[i].Ev.Op, 1)
 					prev = fmt.Sprintf("%v|%v|%v|%v|%v", j.beh[i].Pred[0].Bag, j.beh[i].Pred[0].Pos, j.beh[i].Pred[0].Neg, len(j.beh[i].Pred), i)
 					if len(j.beh[i].Pred) > 1 {
 						prev += fmt.Sprintf("|%v", j.beh[i].Pred[1].Bag)
